@@ -8,6 +8,7 @@ import (
 	"bytes"
 	"errors"
 	"fmt"
+	"io"
 	"math/rand/v2"
 	"os"
 	"sort"
@@ -71,6 +72,10 @@ func c12Gen(class string, seed uint64, tier string) *vfScenario {
 		// a few operations, Close, then every method once
 		sc.Ops = c01GenOps(rng, P, M, rng.IntN(3), true)
 		sc.Ops = append(sc.Ops, vfOp{K: "close"})
+		// the CLOSE itself may fail: (1) the peer answers it with a failure, (2) the link dies instead of an answer
+		if x := rng.IntN(4); x >= 2 {
+			sc.Cfg["closefault"] = int64(x - 1)
+		}
 		for _, k := range []string{"read", "readat", "write", "writeat", "seek", "fstat", "truncate", "chmod", "fchown", "sync", "readfrom", "readfromc", "writeto", "close", "setext"} {
 			sc.Ops = append(sc.Ops, vfOp{K: k, N: 1 + rng.IntN(3*P), Off: int64(rng.IntN(5)), A: int64(rng.IntN(3)), S: "4,0,-1,0"})
 		}
@@ -135,6 +140,25 @@ func c12History(r *vfRun) {
 	env := &vfClientEnv{sim: sim, prop: "C12", c: v.c, files: map[int]*File{}, tag: sc.Seed}
 	ref := &refFile{data: append([]byte(nil), initial...)}
 	prog := append([]vfOp{{K: "open", P: v.name, H: 0, A: int64(os.O_RDWR)}}, sc.Ops...)
+	closeFault := 0
+	if v.peer != nil {
+		closeFault = int(sc.cfg("closefault", 0))
+	}
+	if closeFault != 0 {
+		peer := v.peer
+		peer.override = func(rq *ssReq) []byte {
+			if rq.q.Type != wtClose {
+				return nil
+			}
+			if closeFault == 1 {
+				sim.count("fault.close.status")
+				return ssStatus(rq.q.ID, 4, "close failed").encode()
+			}
+			sim.count("fault.close.linklost")
+			peer.s2c.terminate(io.ErrUnexpectedEOF, "cut")
+			return []byte{}
+		}
+	}
 	var mismatch, msig string
 	closed := false
 	closeSeq := -1
@@ -168,8 +192,11 @@ func c12History(r *vfRun) {
 			return
 		}
 		if op.K == "close" {
-			if res.Err != nil {
+			if res.Err != nil && closeFault == 0 {
 				mismatch, msig = fmt.Sprintf("Close returned %v", res.Err), "close"
+			}
+			if res.Err == nil && closeFault != 0 {
+				mismatch, msig = "Close returned nil although its CLOSE request failed", "close-fault"
 			}
 			closed = true
 			closeSeq = sim.seq
